@@ -26,9 +26,13 @@ def gen_jobs(ctx):
                                      labs=["l1"], maxrules=3, maxfork=3, commits=1,
                                      ops=["ChangeKind", "DeleteRule", "RenameRule", "SwapRules"]),
          300 if not th else 3000, dict(workers=2 if not th else 6)),
+        # (1d) exhaustive: an alert whose only dependants select ALERTS_FOR_STATE
+        ("c20_gen_afs.cfg", gh.cfg("EmitCase", npaths=1, kinds=["rec", "alr"], names=["n1"], bodies=["v1", "S:n1"], labs=["l1"],
+                                    maxrules=2, maxfork=2, commits=1, ops=["DeleteRule", "ChangeKind", "ModifyExpr"]),
+         100 if not th else 400, dict(workers=1)),
         # (1c) exhaustive: the base branch inserts rules and is merged; files left unparsable (removals suppressed: binding only)
         ("c20_gen_merge.cfg", gh.cfg("EmitCase", npaths=1 if not th else 2, kinds=["rec"], names=["n1", "n2"], bodies=["v1", "m:n1"], labs=["l1"],
-                                      maxrules=2, maxfork=2 if not th else 3, commits=2, baseadv=1, merges=1,
+                                      maxrules=2, maxfork=2, commits=2, baseadv=1, merges=1,
                                       ops=["DeleteRule", "DeleteFile", "RenameFile", "BreakFile", "BaseAdvance", "MergeBase"]),
          200 if not th else 3000, dict(workers=2 if not th else 6)),
         # (2) simulation: three files, duplicate providers, two-selector expressions, replacements
@@ -57,16 +61,14 @@ def mc_jobs(ctx, mode):
 def model_and_cases(ctx, mode):
     ctx._spec_copy()
     gj, mj = gen_jobs(ctx), mc_jobs(ctx, mode)
-    jobs = [(lambda j=j: gh.gen(ctx, j[0], j[1], **j[3])) for j in gj]
+    jobs = [(lambda j=j: gh.gen(ctx, j[0], j[1], budget=j[2], **j[3])) for j in gj]
     jobs += [(lambda j=j: ctx.tlc("GitHistory", j[0], files={j[0]: j[1]}, allow_violation=True, timeout=3000,
-                                  workers=j[2], heap="4g")) for j in mj]
-    res = gh.run_parallel(jobs, width=len(jobs))
+                                  workers=j[2], heap="3g" if ctx.thorough else "1g")) for j in mj]
+    res = gh.run_parallel(jobs, width=7 if not ctx.thorough else 5)
     parts, stats = [], []
     for j, (cs, r) in zip(gj, res[:len(gj)]):
-        d = gh.dedupe(cs)
-        pick = gh.stratify(d, j[2], ctx.seed)
-        parts.extend(pick)
-        stats.append({"cfg": j[0], "emitted": len(cs), "distinct": len(d), "replayed": len(pick),
+        parts.extend(cs)   # already de-duplicated and sub-sampled inside gh.gen (memory)
+        stats.append({"cfg": j[0], "emitted": r.get("gen_emitted"), "distinct": r.get("gen_distinct"), "replayed": len(cs),
                       "states": r["distinct"], "generated": r["generated"]})
     return gh.dedupe(parts), stats, res[len(gj):]
 
